@@ -3,6 +3,7 @@ import BddModel.Query
 import BddModel.Expr
 import BddModel.Raw
 import BddModel.Eda
+import BddModel.EdaFast
 /-! Line-protocol driver: one operation per input line, one canonical reply line.
 The Rust harness executes the same lines on the real crate and compares the replies. -/
 open P Arr
